@@ -378,6 +378,11 @@ func (o *Obligation) Solve(timeoutS int) {
 	text := o.smtText(nil, gv)
 	if o.Cover {
 		// vacuity cover: only a refutation of reachability matters
+		if o.Label != "some-return-reachable" {
+			// a stated cover ("the import can succeed"): worth a real attempt at refuting it
+			o.Result = raceSolve(text, min(8, timeoutS), nil)
+			return
+		}
 		o.Result = raceSolve(text, 2, []string{"z3-new"})
 		return
 	}
